@@ -39,6 +39,84 @@ static uint64_t reg_value(Rng& rng) {
 	switch (rng.below(4)) { case 0: return ((uint64_t)H[rng.below(6)] << 32) | H[rng.below(6)]; case 1: return 1ull << rng.below(64); default: return rng.next(); }
 }
 
+static std::string progs_json(randomx_cache& cache) {
+	std::string progs = "[";
+	for (int i = 0; i < RANDOMX_CACHE_ACCESSES; ++i) {
+		SuperscalarProgram& p = cache.programs[i];
+		if (i) progs += ",";
+		progs += "{\"size\":" + std::to_string(p.getSize()) + ",\"addr\":" + std::to_string(p.getAddressRegister()) + ",\"ins\":[";
+		for (unsigned j = 0; j < p.getSize(); ++j) { Instruction& in = p(j); uint32_t imm = in.getImm32(); char b[96]; snprintf(b, sizeof b, "%s[%u,%u,%u,%u,%u,%u]", j ? "," : "", in.opcode, in.dst, in.src, in.mod, imm & 0xffff, imm >> 16); progs += b; }
+		progs += "]}";
+	}
+	return progs + "]";
+}
+
+// program interpreter on seeded registers, then items by the interpreted item function and by the compiled initialiser
+static void exercise(randomx_cache& cache, Rng& rng, bool thorough) {
+		// interpreter of single programs on seeded registers (before the reciprocal cache rewrites the immediates)
+	for (int i = 0; i < RANDOMX_CACHE_ACCESSES; ++i) for (int rep = 0; rep < (thorough ? 6 : 2); ++rep) {
+		uint64_t r[8], r0[8]; for (int q = 0; q < 8; ++q) r0[q] = r[q] = reg_value(rng);
+		executeSuperscalar(r, cache.programs[i], nullptr);
+		Line l; l.str("e", "exec").num("prog", i).words("r", r0, 8).words("out", r, 8); l.emit(out);
+	}
+	// as initCache does: reciprocals into the cache, immediates replaced by indices; then compile
+	cache.reciprocalCache.clear();
+	for (int i = 0; i < RANDOMX_CACHE_ACCESSES; ++i) for (unsigned j = 0; j < cache.programs[i].getSize(); ++j) {
+		auto& in = cache.programs[i](j);
+		if ((SuperscalarInstructionType)in.opcode == SuperscalarInstructionType::IMUL_RCP) { auto rcp = randomx_reciprocal(in.getImm32()); in.setImm32((uint32_t)cache.reciprocalCache.size()); cache.reciprocalCache.push_back(rcp); }
+	}
+	cache.jit->generateSuperscalarHash(cache.programs, cache.reciprocalCache);
+	cache.jit->generateDatasetInitCode();
+	auto native = cache.jit->getDatasetInitFunc();
+	for (int it = 0; it < (thorough ? 12 : 4); ++it) {
+		uint64_t item = it == 0 ? 0 : (it == 1 ? 34078715 : (it == 2 ? 4194303 : rng.below(34078716u)));
+		item &= ~3ull;
+		uint64_t pat = rng.next();
+		cache_reset(pat);
+		alignas(64) uint8_t a[64 * 4], b[64 * 4];
+		for (int q = 0; q < 4; ++q) initDatasetItem(&cache, a + 64 * q, item + q);
+		cache_reset(pat);
+		native(&cache, b, (uint32_t)item, (uint32_t)item + 4);
+		for (int q = 0; q < 4; ++q) {
+			uint32_t n = (uint32_t)(item + q);
+			Line l; l.str("e", "item").limbs("item", &n, 4).w64("pat", pat).words("interp", (const uint64_t*)(a + 64 * q), 8).words("native", (const uint64_t*)(b + 64 * q), 8); l.emit(out);
+			if (!thorough && q >= 1) break;
+		}
+	}
+}
+
+// immediates of the classes an encoder can get wrong: around the imm8 / imm16 / imm32 sign boundaries
+static uint32_t imm_class(Rng& rng) {
+	static const uint32_t C[] = { 0, 1, 2, 3, 0x7e, 0x7f, 0x80, 0x81, 0xfe, 0xff, 0x100, 0x101, 0x7fff, 0x8000, 0xffff, 0x10000, 0x7fffff, 0x800000, 0x7ffffffe, 0x7fffffff,
+		0x80000000u, 0x80000001u, 0xffffff7fu, 0xffffff80u, 0xffffff81u, 0xffffffffu, 0xfffffffeu, 0xffff8000u, 0xffff7fffu, 0xffff0000u };
+	switch (rng.below(4)) { case 0: return (uint32_t)rng.next(); case 1: return (uint32_t)rng.below(512); default: return C[rng.below(sizeof C / sizeof C[0])]; }
+}
+// a well-formed SuperscalarHash program (Table 6.1.1 rules) that no key needs to produce
+static void synth_program(SuperscalarProgram& p, Rng& rng, unsigned size) {
+	for (unsigned j = 0; j < size; ++j) {
+		Instruction& in = p(j);
+		unsigned op = rng.below(14), dst = rng.below(8), src = rng.below(8), mod = rng.below(256); uint32_t imm = 0;
+		auto t = (SuperscalarInstructionType)op;
+		switch (t) {
+		case SuperscalarInstructionType::ISUB_R: case SuperscalarInstructionType::IXOR_R: case SuperscalarInstructionType::IMUL_R:
+			while (src == dst) src = rng.below(8); break;
+		case SuperscalarInstructionType::IADD_RS:
+			while (dst == 5) dst = rng.below(8); while (src == dst) src = rng.below(8); break;
+		case SuperscalarInstructionType::IMULH_R: case SuperscalarInstructionType::ISMULH_R:
+			imm = (uint32_t)rng.next(); break;                       // (the generator leaves a tag here; not an operand)
+		case SuperscalarInstructionType::IROR_C:
+			src = dst; do { imm = rng.below(2) ? rng.below(64) : imm_class(rng); } while ((imm & 63) == 0); break;
+		case SuperscalarInstructionType::IMUL_RCP:
+			src = dst; do { imm = imm_class(rng); } while (isZeroOrPowerOf2(imm)); break;
+		default: // IADD_C7..9, IXOR_C7..9
+			src = dst; imm = imm_class(rng); break;
+		}
+		in.opcode = op; in.dst = dst; in.src = src; in.mod = mod; in.setImm32(imm);
+	}
+	p.setSize(size);
+	p.setAddressRegister(rng.below(8));
+}
+
 int main(int argc, char** argv) {
 	uint64_t seed = strtoull(arg(argc, argv, "--seed", "1"), nullptr, 10);
 	bool thorough = !strcmp(arg(argc, argv, "--tier", "quick"), "thorough");
@@ -54,47 +132,20 @@ int main(int argc, char** argv) {
 		randomx_cache cache;
 		cache.memory = g_mem; cache.jit = new JitCompiler(); cache.jit->enableAll();
 		Blake2Generator gen(key.data(), key.size());
-		std::string progs = "[";
-		for (int i = 0; i < RANDOMX_CACHE_ACCESSES; ++i) {
-			generateSuperscalar(cache.programs[i], gen);
-			SuperscalarProgram& p = cache.programs[i];
-			if (i) progs += ",";
-			progs += "{\"size\":" + std::to_string(p.getSize()) + ",\"addr\":" + std::to_string(p.getAddressRegister()) + ",\"ins\":[";
-			for (unsigned j = 0; j < p.getSize(); ++j) { Instruction& in = p(j); uint32_t imm = in.getImm32(); char b[96]; snprintf(b, sizeof b, "%s[%u,%u,%u,%u,%u,%u]", j ? "," : "", in.opcode, in.dst, in.src, in.mod, imm & 0xffff, imm >> 16); progs += b; }
-			progs += "]}";
-		}
-		progs += "]";
+		for (int i = 0; i < RANDOMX_CACHE_ACCESSES; ++i) generateSuperscalar(cache.programs[i], gen);
+		std::string progs = progs_json(cache);
 		{ Line l; l.str("e", "ss").bytes("key", key).raw("progs", progs); l.emit(out); }
-		// interpreter of single programs on seeded registers (before the reciprocal cache rewrites the immediates)
-		for (int i = 0; i < RANDOMX_CACHE_ACCESSES; ++i) for (int rep = 0; rep < (thorough ? 6 : 2); ++rep) {
-			uint64_t r[8], r0[8]; for (int q = 0; q < 8; ++q) r0[q] = r[q] = reg_value(rng);
-			executeSuperscalar(r, cache.programs[i], nullptr);
-			Line l; l.str("e", "exec").num("prog", i).words("r", r0, 8).words("out", r, 8); l.emit(out);
-		}
-		// as initCache does: reciprocals into the cache, immediates replaced by indices; then compile
-		cache.reciprocalCache.clear();
-		for (int i = 0; i < RANDOMX_CACHE_ACCESSES; ++i) for (unsigned j = 0; j < cache.programs[i].getSize(); ++j) {
-			auto& in = cache.programs[i](j);
-			if ((SuperscalarInstructionType)in.opcode == SuperscalarInstructionType::IMUL_RCP) { auto rcp = randomx_reciprocal(in.getImm32()); in.setImm32((uint32_t)cache.reciprocalCache.size()); cache.reciprocalCache.push_back(rcp); }
-		}
-		cache.jit->generateSuperscalarHash(cache.programs, cache.reciprocalCache);
-		cache.jit->generateDatasetInitCode();
-		auto native = cache.jit->getDatasetInitFunc();
-		for (int it = 0; it < (thorough ? 12 : 4); ++it) {
-			uint64_t item = it == 0 ? 0 : (it == 1 ? 34078715 : (it == 2 ? 4194303 : rng.below(34078716u)));
-			item &= ~3ull;
-			uint64_t pat = rng.next();
-			cache_reset(pat);
-			alignas(64) uint8_t a[64 * 4], b[64 * 4];
-			for (int q = 0; q < 4; ++q) initDatasetItem(&cache, a + 64 * q, item + q);
-			cache_reset(pat);
-			native(&cache, b, (uint32_t)item, (uint32_t)item + 4);
-			for (int q = 0; q < 4; ++q) {
-				uint32_t n = (uint32_t)(item + q);
-				Line l; l.str("e", "item").limbs("item", &n, 4).w64("pat", pat).words("interp", (const uint64_t*)(a + 64 * q), 8).words("native", (const uint64_t*)(b + 64 * q), 8); l.emit(out);
-				if (!thorough && q >= 1) break;
-			}
-		}
+		exercise(cache, rng, thorough);
+		delete cache.jit;
+	}
+	// synthetic program sets
+	int nsynth = atoi(arg(argc, argv, "--synth", thorough ? "160" : "16"));
+	for (int k = 0; k < nsynth; ++k) {
+		randomx_cache cache;
+		cache.memory = g_mem; cache.jit = new JitCompiler(); cache.jit->enableAll();
+		for (int i = 0; i < RANDOMX_CACHE_ACCESSES; ++i) synth_program(cache.programs[i], rng, k == 0 && i == 0 ? 1 : (k == 1 && i == 0 ? 512 : 24 + rng.below(72)));
+		{ Line l; l.str("e", "ssp").raw("progs", progs_json(cache)); l.emit(out); }
+		exercise(cache, rng, thorough);
 		delete cache.jit;
 	}
 	fclose(out);
